@@ -498,7 +498,11 @@ func (in *interp) eval(fr *frame, e Expr) (any, ctl) {
 			case string:
 				sb.WriteString(y)
 			case *Var:
-				sb.WriteString(toStr(fr.vars[y.Name]))
+				v, ok := fr.vars[y.Name]
+				if !ok {
+					panic("refint: read of unset variable $" + y.Name)
+				}
+				sb.WriteString(toStr(v))
 			}
 		}
 		return sb.String(), ctl{}
